@@ -489,6 +489,31 @@ theorem lca_stable {g g' : Graph} (hb : Built g) (hr : C18.Reach g g') {c1 c2 : 
       exact hmax b bc ((hcom b).2 hcb) (C18.addr_stable hb hr hlb).1
   rw [hr0, hr0', lcaSpec_unique hs hs'']
 
+/-- **ff_stable.**  Whether one stored commit can be fast-forwarded to another does not depend on
+what else has been committed since. -/
+theorem ff_stable {g g' : Graph} (hb : Built g) (hr : C18.Reach g g') {c n : Commit}
+    (hc : c ∈ g) (hn : n ∈ g) : canFastForward g' c n = canFastForward g c n := by
+  unfold canFastForward
+  rw [lca_stable hb hr hc hn]
+
+/-- **spec_stable.**  An ancestor spec (`^`, `^k`, `~n` walks) applied to a stored commit resolves
+to the same commit — or fails with the same error — in every later graph. -/
+theorem spec_stable {g g' : Graph} (hb : Built g) (hr : C18.Reach g g') :
+    ∀ (is : List Nat) {c : Commit}, c ∈ g → getAncestor g' c is = getAncestor g c is
+  | [], _, _ => rfl
+  | i :: is, c, hc => by
+    have hi := hb.inv
+    have hlc := lookup_self_of_inv hi hc
+    unfold getAncestor
+    cases hp : c.parents[i]? with
+    | none => rfl
+    | some pa =>
+      have hpar : IsParent g pa c.addr := ⟨c, hlc, List.mem_of_getElem? hp⟩
+      obtain ⟨p, hlp⟩ := parent_stored hi hpar
+      have hlp' := (C18.addr_stable hb hr hlp).1
+      simp only [hlp, hlp']
+      exact spec_stable hb hr is (lookup_some hlp).1
+
 /-- non-vacuity of `lca_stable`: one more merge commit on top of the criss-cross graph -/
 def crissCrossPlus : Graph := match addCommit crissCrossGraph 60 [40, 50] with | .ok g => g | .error _ => []
 theorem crissCrossPlus_ok : addCommit crissCrossGraph 60 [40, 50] = .ok crissCrossPlus := by rfl
